@@ -250,7 +250,7 @@ def g_guideline(rng, ids):
 
 def g_glyph(rng, name, all_names, wild=False):
     ids = IdPool(rng, "i")
-    g = dict(name=name)
+    g = dict(name=name, style=rng.choice([0, 0, 1]))
     g["unicodes"] = rng.choice([[], [], [65], [0xE9], [66, 0x1F600], [97, 65]])
     g["width"] = rng.choice([0, 500, 612.5, -20])
     g["height"] = rng.choice([0, 0, 1000, 750.5])
@@ -354,7 +354,7 @@ def g_case(rng, tier, kind=None):
 
 
 def generate(rng, tier):
-    n = 420 if tier == "quick" else 9000
+    n = 1300 if tier == "quick" else 24000
     kinds = [k for k, _, _ in KINDS]
     for i in range(n):
         # every kind is hit regularly; the rest is drawn at random (fonts and glyphs more often)
@@ -393,29 +393,71 @@ def search(rng, tier, broken):
 # ---------------------------------------------------------------------------------------
 
 def _fill_glyph(g, d):
-    from defcon import Point  # noqa: F401
+    """two API styles (d["style"]): dictionaries / pens, or objects built attribute by attribute and inserted"""
+    from defcon.objects.contour import Contour
+    from defcon.objects.component import Component
+    from defcon.objects.anchor import Anchor
+    from defcon.objects.guideline import Guideline
+    from defcon.objects.point import Point
+    objs = d.get("style", 0) == 1
     g.unicodes = list(d["unicodes"])
     g.width = d["width"]
     g.height = d["height"]
     g.note = d["note"]
     if d["lib"]:
-        g.lib.update(dec(d["lib"]))
+        if objs:
+            for k, v in dec(d["lib"]).items():
+                g.lib[k] = v
+        else:
+            g.lib.update(dec(d["lib"]))
     if d["tempLib"]:
         g.tempLib.update(dec(d["tempLib"]))
     pen = g.getPointPen()
     for c in d["contours"]:
-        pen.beginPath(identifier=c["id"])
-        for (x, y, seg, smooth, name, ident) in c["points"]:
-            pen.addPoint((x, y), segmentType=seg, smooth=smooth, name=name, identifier=ident)
-        pen.endPath()
+        if objs:
+            ct = Contour()
+            ct.identifier = c["id"]
+            for (x, y, seg, smooth, name, ident) in c["points"]:
+                ct.appendPoint(Point((x, y), segmentType=seg, smooth=smooth, name=name, identifier=ident))
+            g.appendContour(ct)
+        else:
+            pen.beginPath(identifier=c["id"])
+            for (x, y, seg, smooth, name, ident) in c["points"]:
+                pen.addPoint((x, y), segmentType=seg, smooth=smooth, name=name, identifier=ident)
+            pen.endPath()
     for base, tr, ident in d["components"]:
-        pen.addComponent(base, tuple(tr), identifier=ident)
+        if objs:
+            cp = Component()
+            cp.baseGlyph = base
+            cp.transformation = tuple(tr)
+            cp.identifier = ident
+            g.appendComponent(cp)
+        else:
+            pen.addComponent(base, tuple(tr), identifier=ident)
     for a in d["anchors"]:
-        g.appendAnchor(dict(a))
+        if objs:
+            an = Anchor()
+            an.x, an.y, an.name, an.color, an.identifier = a["x"], a["y"], a["name"], a["color"], a["identifier"]
+            g.appendAnchor(an)
+        else:
+            g.appendAnchor(dict(a))
     for gl in d["guidelines"]:
-        g.appendGuideline(dict(gl))
+        if objs:
+            gu = Guideline()
+            gu.x, gu.y, gu.angle, gu.name, gu.color, gu.identifier = (gl["x"], gl["y"], gl["angle"], gl["name"], gl["color"],
+                                                                       gl["identifier"])
+            g.appendGuideline(gu)
+        else:
+            g.appendGuideline(dict(gl))
     if d["image"] is not None:
-        g.image = dict(d["image"])
+        im = d["image"]
+        if objs:
+            img = g.image
+            img.fileName = im["fileName"]
+            img.transformation = (im["xScale"], im["xyScale"], im["yxScale"], im["yScale"], im["xOffset"], im["yOffset"])
+            img.color = im["color"]
+        else:
+            g.image = dict(im)
 
 
 def build_font(fd):
